@@ -158,7 +158,7 @@ PROPS["C09"] = {
 PROPS["C18"] = {
     "level": "exploration",
     "rule": "rapidcheck-generated: (peak) WAV/WAVEX/AIFF/CAF (+RF64 with SFC_SET_ADD_PEAK_CHUNK) x FLOAT/DOUBLE x channels x buffers on an exact 1/1024 grid with the maximum planted at the first frame / last frame / a write-call boundary / as ties within a call, across calls and across channels / negative / all-zero x random write partition x the 4 write types; model = per-channel max |x| and frame index of its first occurrence, compared with the PEAK chunk located by an independent chunk walker and with SFC_GET_SIGNAL_MAX / SFC_GET_MAX_ALL_CHANNELS after re-open; "
-            "(calc) every catalogue entry x read position {start, middle, end, after a read} x NORM_DOUBLE/NORM_FLOAT settings: SFC_CALC_SIGNAL_MAX / NORM / MAX_ALL_CHANNELS / NORM_MAX_ALL_CHANNELS into a garbage-filled array equal the maximum of an independent sequential double read, position, settings and the next frame delivered are unchanged; non-trivial = >= 2 channels with a tie or call-boundary maximum (peak) or a non-zero read position (calc); distinct = hash of the case",
+            "(calc) every catalogue entry x read position {start, middle, end, after a read} x NORM_DOUBLE/NORM_FLOAT settings: SFC_CALC_SIGNAL_MAX / NORM / MAX_ALL_CHANNELS / NORM_MAX_ALL_CHANNELS into a garbage-filled array equal the maximum of an independent sequential double read, position, settings and the next frame delivered are unchanged; in a quarter of the peak cases the file is closed after some of the calls, re-opened read/write and the rest appended (second session); non-trivial = >= 2 channels with a tie or call-boundary maximum (peak) or a non-zero read position (calc); distinct = hash of the case",
     "assumptions": BASE_ASSUME + ["PEAK values are compared as (float) max because the chunk stores 32-bit floats", "for CALC on lossy codecs 'the stored samples' are what an independent sequential decode delivers"],
     "stages": [
         {"bin": "c18", "quick": {"cases": 4000, "workers": 16, "budget": 200}, "thorough": {"cases": 60000, "workers": 16, "budget": 1500}},
@@ -203,7 +203,7 @@ PROPS["C15"] = {
     "engine": "enumeration",
     "technique": "systematic fault injection: enumeration of every virtual-I/O callback index x fault kind x persistence for fixed workloads, with containment invariants as the oracle",
     "rule": "42 representative formats (one per container and per codec family) x workloads {write 3 blocks + header update + close, open-read-seek-read-query-close on a file with metadata chunks, rdwr read/append/reread where supported}: (sample-granular formats also sf_write_raw / sf_read_raw, position judged with the geometry the handle reports) the fault-free run counts K callbacks; cells = fault point i in 1..K x kind {zero-length transfer, short transfer, seek failure, length answer +4096 / -17 / huge} x {single-shot, persistent from i}; both tiers enumerate all cells (the whole grid costs a few seconds); each (format, workload) group runs in a forked child that announces a cell before executing it, a hang ends the child through the I/O work budget (300000 callbacks) and is attributed to that cell; "
-            "oracle per cell: every call returns, counts within [0, requested], the internal position moved by exactly the returned count, seek returns target or -1, invariants hook clean, failing open returns NULL with an error, descriptor set unchanged, audio bytes accepted before the fault equal either the snapshot at the fault or the fault-free file, LeakSanitizer clean (per group, per cell on re-run when a group leaks); non-trivial = the fault was actually consumed (counted; cells are distinct by construction)",
+            "oracle per cell: every call returns, counts within [0, requested], the internal position moved by exactly the returned count, seek returns target or -1, invariants hook clean, failing open returns NULL with an error, descriptor set unchanged, audio bytes accepted before the fault equal either the snapshot at the fault or the fault-free file, LeakSanitizer clean (per group, per cell on re-run when a group leaks); every group is run with each of the four sample types for the typed transfers; a typed write on a sample-granular encoding must not return more frames than the I/O layer accepted bytes for during the call; non-trivial = the fault was actually consumed (counted; cells are distinct by construction)",
     "assumptions": BASE_ASSUME + ["faults stay inside the SF_VIRTUAL_IO contract (returns in [0, requested], seek -1); OS-level errors on descriptors (ENOSPC, EBADF) are not injected in this version",
                                   "'accepted data not corrupted' is checked for the write workload on the audio region behind the header size observed after a fault-free open"],
     "exhaustive": True,
@@ -217,7 +217,7 @@ PROPS["C14"] = {
     "rule": "rapidcheck-generated: kind {read, write} x catalogue entry x channels x N in {0,1,5,6,100,777,3000} x sample seed x mutation {valid, truncated at a generated cut, one byte altered, header bytes overwritten} x leading junk {1..1001} x trailing junk {0..500}; "
             "read: the same byte string opened through virtual I/O, sf_open, sf_open_fd close_desc 0 and 1, a descriptor positioned at offset k of a file with random leading and trailing bytes (WAV/AIFF/AU, valid inputs) and a non-seekable pipe (WAV/AIFF/AU sample-granular encodings, valid inputs); optional extras on valid inputs: a 17-70 KB unknown chunk spliced in before the audio (WAV / AIFF), an AU annotation of 4..70000 bytes, an ID3v2 tag in front of a WAV, a second pipe fed slowly by a forked writer while a 400 us timer signal without SA_RESTART interrupts the reader, the descriptor routes repeated with standard input closed so that the file gets descriptor 0; oracle: same NULL-vs-handle outcome and sf_error number (path/fd/vio), same SF_INFO (pipe: frames and seekable exempt), same first 2000 frames via sf_readf_int, same strings, sf_close 0; "
             "write: the same frames written through virtual I/O, sf_open, sf_open_fd 0/1 and a descriptor positioned at offset k<=L of an existing L-byte container file; oracle: bytes identical (SVX NAME chunk and MPC2K name field masked), the L existing bytes intact and the sound file appended after them; "
-            "both: fcntl on the handed-in descriptor after sf_close says closed iff close_desc, and the set of open descriptors of the process is unchanged; non-trivial = N >= 1 and at least three routes compared; distinct = hash of the case",
+            "both: fcntl on the handed-in descriptor after sf_close says closed iff close_desc, and the set of open descriptors of the process is unchanged; SVX files get, in half of the cases, a path name exactly as long as their NAME chunk (the reader treats that case specially); non-trivial = N >= 1 and at least three routes compared; distinct = hash of the case",
     "assumptions": BASE_ASSUME + ["SD2 is excluded (path-only container with a resource fork)",
                                   "pipe inputs are limited to 60000 bytes so that the whole file fits the pipe buffer and no writer thread is needed",
                                   "the open-descriptor census reads /proc/self/fd"],
